@@ -1,31 +1,45 @@
 #!/usr/bin/env python3
-"""Apply each seeded breaking change (seeded/<id>/<n>/patch.diff) to /repo, run the check of the property
-it targets, record the outcome in seeded/<id>/<n>/result.json and undo the change.
-Usage: run_seeded.py [ID ...]   (/repo must be clean)"""
-import json, os, subprocess, sys, glob
+"""Run the check of the targeted property against each seeded breaking change (seeded/<id>/<n>/patch.diff).
+Each change is applied in a scratch git worktree of /repo's HEAD under /tmp (never in /repo itself), the check is
+run with VERIF_REPO pointing there and its evidence sent to out/seeded-evidence, the outcome is recorded in
+seeded/<id>/<n>/result.json, and the worktree is removed.
+Usage: run_seeded.py [-j N] [ID | ID/n ...]"""
+import json, os, subprocess, sys, glob, shutil, concurrent.futures as cf
 ROOT = os.path.dirname(os.path.dirname(os.path.abspath(__file__)))
 REPO = "/repo"
 def sh(*a, **k): return subprocess.run(a, capture_output=True, text=True, **k)
-if sh("git", "-C", REPO, "status", "--porcelain").stdout.strip():
-    print("repo not clean"); sys.exit(2)
-ids = sys.argv[1:]
-rows = []
+args = sys.argv[1:]; jobs = 3
+if args and args[0] == "-j": jobs = int(args[1]); args = args[2:]
+if sh("git", "-C", REPO, "status", "--porcelain", "--untracked-files=no").stdout.strip():
+    print("uncommitted changes in /repo: commit them first (the scratch worktrees are taken from HEAD)"); sys.exit(2)
+todo = []
 for d in sorted(glob.glob(os.path.join(ROOT, "seeded", "*", "*"))):
     pid = os.path.basename(os.path.dirname(d)); n = os.path.basename(d)
-    if ids and pid not in ids: continue
-    patch = os.path.join(d, "patch.diff")
-    if not os.path.exists(patch): continue
-    a = sh("git", "-C", REPO, "apply", patch)
-    if a.returncode != 0:
-        rows.append((pid, n, "PATCH-FAILS", a.stderr.strip()[:100])); continue
+    if args and pid not in args and f"{pid}/{n}" not in args and not any(a.startswith(f"{pid}/{n}@") for a in args): continue
+    others = [a.split("@", 1)[1] for a in args if a.startswith(f"{pid}/{n}@")]
+    if os.path.exists(os.path.join(d, "patch.diff")):
+        if others:
+            for o in others: todo.append((pid, n, d, o))   # run another property's check against this change (result.json untouched)
+        else: todo.append((pid, n, d, pid))
+def run(t):
+    pid, n, d, chk = t
+    wt = f"/tmp/seedrun_{pid}_{n}_{chk}_{os.getpid()}"
+    sh("git", "-C", REPO, "worktree", "remove", "--force", wt)
+    a = sh("git", "-C", REPO, "worktree", "add", "-q", "--detach", wt, "HEAD")
+    if a.returncode != 0: return (pid, n, "WORKTREE-FAILS", a.stderr.strip()[:100])
     try:
-        r = sh(os.path.join(ROOT, "check"), pid, "quick", cwd=ROOT,
-               env=dict(os.environ, VERIF_EVIDENCE_DIR=os.path.join(ROOT, "out", "seeded-evidence")))
+        a = sh("git", "-C", wt, "apply", os.path.join(d, "patch.diff"))
+        if a.returncode != 0: return (pid, n, "PATCH-FAILS", a.stderr.strip()[:100])
+        r = sh(os.path.join(ROOT, "check"), chk, "quick", cwd=ROOT,
+               env=dict(os.environ, VERIF_REPO=wt, VERIF_EVIDENCE_DIR=os.path.join(ROOT, "out", "seeded-evidence", f"{pid}_{n}"),
+                        VERIF_OUT_DIR=os.path.join(ROOT, "out", "seeded-smt", f"{pid}_{n}")))
         viol = [l for l in r.stdout.splitlines() if l.startswith("VIOLATION")]
         fails = [l.split(" verdict=")[0].replace("FAILED ", "") for l in r.stdout.splitlines() if l.startswith("FAILED")]
         res = {"property": pid, "change": n, "exit": r.returncode, "caught": r.returncode == 1 and bool(viol), "failed_obligations": fails[:12]}
-        json.dump(res, open(os.path.join(d, "result.json"), "w"), indent=1)
-        rows.append((pid, n, "CAUGHT" if res["caught"] else "MISSED(rc=%d)" % r.returncode, "; ".join(fails[:3])[:160]))
+        if chk == pid: json.dump(res, open(os.path.join(d, "result.json"), "w"), indent=1)
+        else: res["checked_with"] = chk
+        return (pid + ("" if chk == pid else "@" + chk), n, "CAUGHT" if res["caught"] else "MISSED(rc=%d)" % r.returncode, "; ".join(fails[:3])[:200])
     finally:
-        sh("git", "-C", REPO, "checkout", "--", ".")
-for r in rows: print("%-4s %-2s %-14s %s" % r)
+        sh("git", "-C", REPO, "worktree", "remove", "--force", wt); shutil.rmtree(wt, ignore_errors=True)
+with cf.ThreadPoolExecutor(jobs) as ex:
+    for r in ex.map(run, todo): print("%-4s %-2s %-14s %s" % r, flush=True)
